@@ -136,23 +136,52 @@ int main(int argc, char** argv) {
       continue;
     std::vector<std::string> syls, formulas, queries;
     for (auto& h : split(f_syl, ',')) syls.push_back(uhx(h));
-    for (auto& h : split(f_form, ';')) formulas.push_back(uhx(h));
+    if (f_form.rfind("M:", 0) != 0)
+      for (auto& h : split(f_form, ';')) formulas.push_back(uhx(h));
     for (auto& h : split(f_q, ',')) queries.push_back(uhx(h));
     std::vector<size_t> limits;
     for (auto& h : split(f_lim, ',')) limits.push_back(std::stoul(h));
 
     // --- dict_compiler.cc:318-327
     Syllabary syllabary(syls.begin(), syls.end());
+    Script script;
+    bool merge_mode = f_form.rfind("M:", 0) == 0;
+    if (merge_mode) {
+      // out-of-domain stream: Script::Merge driven directly (all types, tips, repeated syllables)
+      //   M:<hexkey>|<type>:<cred>:<hextips>|<hexsyl>:<type>:<cred>:<hextips>,...;...
+      for (auto& op : split(f_form.substr(2), ';')) {
+        auto parts = split(op, '|');
+        if (parts.size() != 3) continue;
+        auto mkprops = [](const std::vector<std::string>& f, size_t o) {
+          SpellingProperties sp;
+          sp.type = static_cast<SpellingType>(std::stoi(f[o]));
+          int n = -std::stoi(f[o + 1]);
+          for (int i = 0; i < n; ++i) sp.credibility += kPenalty;
+          sp.tips = uhx(f[o + 2]);
+          return sp;
+        };
+        SpellingProperties sp = mkprops(split(parts[1], ':'), 0);
+        std::vector<Spelling> v;
+        for (auto& e : split(parts[2], ',')) {
+          auto f = split(e, ':');
+          Spelling x(uhx(f[0]));
+          x.properties = mkprops(f, 1);
+          v.push_back(x);
+        }
+        script.Merge(uhx(parts[0]), sp, v);
+      }
+      std::cout << id << " SCRIPT 1 " << show_script(script) << "\n";
+    }
     Projection p;
-    if (!p.Load(formula_list(formulas))) {
+    if (!merge_mode && !p.Load(formula_list(formulas))) {
       std::cout << id << " LOADFAIL\n";
       continue;
     }
-    Script script;
-    for (const auto& x : syllabary) script.AddSyllable(x);
+    if (!merge_mode)
+      for (const auto& x : syllabary) script.AddSyllable(x);
 
     // --- the rounds one by one: flags, sampled effects, intermediate scripts
-    {
+    if (!merge_mode) {
       Calculus calc;
       Script cur(script);
       std::string flags;
